@@ -302,6 +302,9 @@ func bvGenCommon(r *Rng, nIn, maxOut int, v0 bool, forceReiss bool) *bvShape {
 			sh.Ins[i].IssValue = bvRandValue(r)
 			sh.Ins[i].IssToken = uint64(r.Pick(0, 1, 1, 5))
 			sh.Ins[i].IssBlinded = r.Bool()
+			if !v0 && sh.Ins[i].IssToken > 0 && r.Chance(15) { // token-only issuance: null asset amount
+				sh.Ins[i].IssValue = 0
+			}
 			if !v0 && r.Chance(30) { // a packet made elsewhere: no blinded-issuance flag field
 				sh.Ins[i].IssBlinded = false
 				sh.Ins[i].IssNoFlag = true
@@ -341,8 +344,8 @@ func bvGenCommon(r *Rng, nIn, maxOut int, v0 bool, forceReiss bool) *bvShape {
 		budget -= m
 		for _, v := range bvSplit(r, tot[a], m) {
 			pb := 85
-			if a >= 200 && a-200 < len(sh.Ins) && sh.Ins[a-200].IssNoFlag {
-				pb = 35 // leave the token output explicit more often
+			if a >= 200 && a-200 < len(sh.Ins) && sh.Ins[a-200].Iss == 1 && (sh.Ins[a-200].IssNoFlag || !sh.Ins[a-200].IssBlinded) {
+				pb = 40 // leave the token output explicit more often
 			}
 			sh.Outs = append(sh.Outs, bvOut{Asset: a, Value: v, Blind: r.Chance(pb)})
 		}
@@ -591,7 +594,7 @@ func bvGenV2Shape(r *Rng) *bvShape {
 	}
 	for i, in := range sh.Ins {
 		// BlindIssuances only accepts the issuance of the last input (index check), ask elsewhere rarely
-		if in.Iss != 0 && (r.Chance(55) || in.IssNoFlag) && (i == nIn-1 || r.Chance(15)) {
+		if in.Iss != 0 && (r.Chance(55) || in.IssNoFlag || in.IssValue == 0) && (i == nIn-1 || r.Chance(15)) {
 			sh.Parties[owner[i]].Iss = []uint32{uint32(i)}
 		}
 	}
